@@ -767,6 +767,21 @@ def translate(spec, src_cache):
         src_cache[path] = (text, ast.parse(text))
     text, tree = src_cache[path]
     func = _find_func(tree, spec["func"])
+    if spec["loc"][0] == "stmt_order":
+        # static kernel: do the statements matching the given source fragments occur (each exactly once) in the given order?
+        frags = spec["loc"][1]
+        stmts = [x for x in ast.walk(func) if isinstance(x, ast.stmt) and not isinstance(x, (ast.FunctionDef, ast.ClassDef))]
+        pos = []
+        for fr in frags:
+            hits = sorted({x.lineno for x in stmts if fr in ast.unparse(x).split("\n")[0]})
+            pos.append(hits[0] if len(hits) >= 1 else None)
+        ok = all(p is not None for p in pos) and all(pos[i] < pos[i + 1] for i in range(len(pos) - 1))
+        absent = spec["loc"][2] if len(spec["loc"]) > 2 else []
+        for fr in absent:
+            if any(fr in ast.unparse(x).split("\n")[0] for x in stmts):
+                ok = False
+        lean = (f"/-- `{spec['file']}` `{spec['func']}`: the statements {frags} occur in this order (lines {pos})" + (f" and none of {absent} occurs" if absent else "") + f" -/\ndef {spec['name']} : Bool := {'true' if ok else 'false'}\n")
+        return lean, f"order of {frags}: {pos}", func.lineno, ast.get_source_segment(text, func)
     if spec["loc"][0] == "count_calls":
         # static kernel: how many call sites of a given callee the function body contains (nested defs excluded unless asked)
         callee = spec["loc"][1]
